@@ -49,6 +49,7 @@ func checkC13(c c13Case, rec *Rec) *Violation {
 	const id = "C13"
 	// the regex rules with generated texts get texts that nothing in this process has used before
 	uniq, id1 := c13UniqID(c.Lists), ""
+	orig := c
 	if uniq != "" {
 		id1 = fmt.Sprint(2_000_000_000 + c13FreshID.Add(1))
 		c = c13Rename(c, uniq, id1)
@@ -206,7 +207,7 @@ func checkC13(c c13Case, rec *Rec) *Violation {
 		rec.Label("renamed-apart-reverse-history")
 	}
 	if nontrivial {
-		rec.NonTrivial(fmt.Sprint(c.Lists)+fmt.Sprint(len(c.Steps))+fmt.Sprintf("%x", hash64(fmt.Sprint(c.Steps, queries))), map[string]any{"lists": c.Lists, "steps": len(c.Steps), "first_steps": firstN(c.Steps, 6)})
+		rec.NonTrivial(fmt.Sprintf("%x", hash64(string(mustJSON(orig)))), map[string]any{"lists": orig.Lists, "steps": len(orig.Steps), "first_steps": firstN(orig.Steps, 6)})
 	}
 	rec.LabelN("steps", len(c.Steps))
 	return nil
